@@ -29,7 +29,7 @@ GLOBALS = [
 ]
 PRELUDE = 'struct S1 { counter: atomic<u32>, data: array<u32> }\n@group(1) @binding(2) var tex2: texture_2d<f32>;\n'
 CONTEXTS = ['plain', 'if_accept', 'if_reject', 'switch_case', 'switch_default', 'loop_body', 'continuing', 'block', 'for_body',
-            'nested_if_in_loop']
+            'nested_if_in_loop', 'plain2', 'plain3', 'loop_body2']
 STAGE_ATTR = {0: ('@vertex', '-> @builtin(position) vec4<f32>', 'return vec4<f32>(0.0, 0.0, 0.0, 1.0);'),
               1: ('@fragment', '', ''), 2: ('@compute @workgroup_size(1)', '', '')}
 STAGE_BIT = {0: 1, 1: 2, 2: 4}
@@ -117,10 +117,10 @@ class Template:
   {self.r_use(e["slots"]["use"], form)}
   {self.r_callr(e["slots"]["callr"])}
   let k = r{e["slots"]["callr"].id} + 1u;
-  {g("plain")}
+  {g("plain")} {g("plain2")} {g("plain3")}
   if (k == 1u) {{ {g("if_accept")} }} else {{ {g("if_reject")} }}
   switch k {{ case 1u: {{ {g("switch_case")} }} default: {{ {g("switch_default")} }} }}
-  loop {{ {g("loop_body")} if (k > 2u) {{ break; }} if (k > 3u) {{ {g("nested_if_in_loop")} }} continuing {{ {g("continuing")} }} }}
+  loop {{ {g("loop_body")} {g("loop_body2")} if (k > 2u) {{ break; }} if (k > 3u) {{ {g("nested_if_in_loop")} }} continuing {{ {g("continuing")} }} }}
   {{ {g("block")} }}
   for (var i = 0u; i < 2u; i++) {{ {g("for_body")} }}
   {retstmt}'''
@@ -361,7 +361,21 @@ def run(ctx):
     for cx in ctxs:
         plans.append((cx, None))
     if not quick:
-        plans += [(a, b) for a, b in itertools.combinations(CONTEXTS, 2)][:: 3]
+        plans += [(a, b) for a, b in itertools.combinations(CONTEXTS, 2)][:: 9]
+    # several calls in ONE block (repeated callee, then a new one): the walk must not stop early
+    seqs = [('plain', 'plain2', 'plain3'), ('loop_body', 'loop_body2', None)]
+    for a_, b_, c_ in seqs:
+        tpl = Template(nh, [1, 2, 0][:ne], CONTEXTS)
+        e0 = tpl.entries[0]
+        hvs = [f for f in tpl.funcs if f['kind'] == 'v']
+        hvs[0]['slots']['use'].value = 'u0'
+        tpl.entries[1]['slots']['use'].value = 'tex'
+        sym = [e0['ctx'][x] for x in (a_, b_, c_) if x] + [hvs[-1]['slots']['use']]
+        module, info = build(ctx, tpl, sym, [])
+        label = f'global_shader_stages/sequence-{a_}+{b_}{"+" + c_ if c_ else ""}'
+        res = ctx.explore(label, lambda it: it.call('global_shader_stages', [mkref(module)]), assume=info['assume'],
+                          anchors=['global_shader_stages', 'update_stages', 'update_stages_blocks'])
+        check_stage_map(ctx, label, tpl, info, res, seen)
     for cx, cx2 in plans:
         tpl = Template(nh, [1, 2, 0][:ne], CONTEXTS)
         e0 = tpl.entries[0]
